@@ -11,8 +11,19 @@ Import ListNotations.
 From RX Require Import Generated.
 From RX.Model Require Import Base CharClass Stream Tokenizer Doc Builder Parse Api.
 From RX.Spec Require Scope.
-From RX.Proofs Require Import ScopeProofs.
+From RX.Proofs Require Import ScopeProofs ScopeParse.
 Open Scope N_scope.
+
+(* ---- Proofs/ScopeParse.v ---- *)
+Theorem C06_parse_scopes_ok :
+  forall text opt d, parse text opt = Ok d -> elem_scopes_ok text d.
+Proof. exact parse_scopes_ok. Qed.
+Print Assumptions C06_parse_scopes_ok.
+
+Theorem C06_parse_names_ok :
+  forall text opt d, parse text opt = Ok d -> elem_names_ok text d.
+Proof. exact parse_names_ok. Qed.
+Print Assumptions C06_parse_names_ok.
 
 (* ---- Proofs/ScopeProofs.v ---- *)
 Theorem C06_scopes_refine :
